@@ -33,6 +33,7 @@ def check(repo, tier="quick"):
     res.rule("C14.e", "low delay: the target is 8 * slice_bytes(state, sx, sy) - 7 - intlog2(8 * slice_bytes(state, sx, sy) - 7), the decoder's bits left after qindex and the length field; slice_y_length is the bit count of the luma coefficients")
     res.rule("C14.f", "calculate_coeffs_bits adds signed_exp_golomb_length of every coefficient up to the last non-zero one (trailing zeros cost nothing in a bounded block)")
 
+    res.rule("C14.h", "the chosen index fits its field: between the search and the slice constructor, make_transform_data_hq_lossy / make_transform_data_ld_lossy reject (raise) an index above 2**w - 1, w being the width with which the description program reads qindex for that slice kind (8 bits as a one-byte literal in hq_slice, nbits 7 in ld_slice); the search itself has no upper bound")
     res.rule("C14.g", "the requested minimum reaches the search: in the encoder, every call from a function with a minimum_qindex (minimum_slice_size_scaler) parameter to a function that has a parameter of that name binds it to the caller's own value; make_sequence pairs pictures with their minima positionally; hidden-state and bug-pattern rules")
     m = repo.mod(PIC)
     for f in ("quantize_to_fit", "quantize_coeffs", "calculate_coeffs_bits", "calculate_hq_length_field", "make_hq_slice", "make_ld_slice", "make_transform_data_hq_lossy", "make_transform_data_ld_lossy", "get_safe_lossy_hq_slice_size_scaler"):
@@ -46,6 +47,8 @@ def check(repo, tier="quick"):
     rule_f(res, m)
     rule_g(repo, res)
     res.floor("C14.g", 12)
+    rule_h(repo, res, "C14.h")
+    res.floor("C14.h", 2)
     res.floor("C14.a", 4)
     res.floor("C14.b", 2)
     res.floor("C14.c", 4)
@@ -343,3 +346,49 @@ def rule_g(repo, res):
     res.check(ok, "C14.g", "make_sequence:per-picture-minimum", where, "make_sequence must take minimum_qindex from its keyword arguments, repeat a scalar for every picture, pair the list with the pictures positionally and pass each picture its own minimum", by="zip(pictures, minimum_qindices) -> make_picture_data_units(.., picture, minimum_qindex, ..)")
     globals_state.rule(repo, res, "C14.g", mods, what="the quantisation index chosen for one slice")
     lints.rule(repo, res, "C14.g", mods)
+
+
+def rule_h(repo, res, rid):
+    """qindex range check between quantize_to_fit and make_*_slice"""
+    m = repo.mod(PIC)
+    bm = repo.mod("bitstream.vc2")
+    # field widths from the description program
+    widths = {}
+    for fname, kind in (("hq_slice", "hq"), ("ld_slice", "ld")):
+        bfn = bm.funcs.get(fname)
+        if bfn is None:
+            raise AnalysisError("anchor vanished: bitstream.vc2:%s" % fname)
+        for c in ast.walk(bfn):
+            if isinstance(c, ast.Call) and isinstance(c.func, ast.Attribute) and dotted(c.func.value) == "serdes" and c.args and const_str(c.args[0]) == "qindex" and len(c.args) == 2 and isinstance(c.args[1], ast.Constant):
+                widths[kind] = c.args[1].value * 8 if c.func.attr == "uint_lit" else c.args[1].value if c.func.attr == "nbits" else None
+    if set(widths) != {"hq", "ld"} or None in widths.values():
+        raise AnalysisError("qindex field widths not found in the description program: %s" % widths)
+    for fname, kind, ctor in (("make_transform_data_hq_lossy", "hq", "make_hq_slice"), ("make_transform_data_ld_lossy", "ld", "make_ld_slice")):
+        fn = m.funcs.get(fname)
+        where = "%s:%s" % (m.rel, fname)
+        limit = (1 << widths[kind]) - 1
+        ok = False
+        found = "no unpacking of quantize_to_fit's result"
+        for a in ast.walk(fn):
+            if isinstance(a, ast.Assign) and isinstance(a.value, ast.Call) and dotted(a.value.func) == "quantize_to_fit" and isinstance(a.targets[0], ast.Tuple) and isinstance(a.targets[0].elts[0], ast.Name):
+                q = a.targets[0].elts[0].id
+                blk = None
+                p = getattr(a, "_parent", None)
+                for field in ("body", "orelse"):
+                    b = getattr(p, field, None)
+                    if isinstance(b, list) and any(x is a for x in b):
+                        blk = b
+                if blk is None:
+                    continue
+                rest = blk[[i for i, x in enumerate(blk) if x is a][0] + 1:]
+                found = "no range check of %s before %s" % (q, ctor)
+                for x in rest:
+                    if any(isinstance(c, ast.Call) and dotted(c.func) == ctor for c in ast.walk(x)):
+                        break
+                    if isinstance(x, ast.If) and not x.orelse and x.body and isinstance(x.body[-1], ast.Raise):
+                        t = norm(x.test)
+                        if t in ("%s > %d" % (q, limit), "%s >= %d" % (q, limit + 1), "%s >= 1 << %d" % (q, widths[kind]), "%s > (1 << %d) - 1" % (q, widths[kind])):
+                            ok = True
+                        else:
+                            found = "range check `%s` (the field holds 0..%d)" % (t, limit)
+        res.check(ok, rid, "%s:qindex-fits-%d-bit-field" % (fname, widths[kind]), where, "the index returned by the (unbounded) search must be rejected with `if qindex > %d: raise ...` before it is stored in a slice: the %s qindex field is %d bits wide (%s)" % (limit, kind.upper(), widths[kind], found), by="if qindex > %d: raise, before %s" % (limit, ctor))
